@@ -2,7 +2,7 @@
    Statements only; proofs in proofs/Gateway_proofs.v.  [gstep] transliterates Gateway.reset /
    reset_received / wait_for_startup_reset / connection_lost / eof_received (bellows/uart.py, as
    repaired) and EZSP.enter_failed_state/close; tied to the real classes by the C11 correspondence. *)
-From Coq Require Import NArith List Bool.
+From Coq Require Import ZArith NArith List Bool.
 Import ListNotations.
 Require Import BV.gen.GenAsh BV.gen.GenProto BV.model.AshCodec BV.model.AshRx BV.model.AshHost
                BV.model.Gateway BV.proofs.Gateway_proofs.
@@ -12,8 +12,12 @@ Open Scope N_scope.
    gfinal es          := fst (grun g_init es)        gouts es := concat (snd (grun g_init es))
    request_pending st := r_waiting st = true /\ r_fut st = FPend /\ r_attr st = true
    startup_pending st := s_waiting st = true /\ s_fut st = FPend /\ s_attr st = true
-   quiet st           := no resolved-but-unconsumed future: r_fut st and s_fut st are FNone or FPend,
-                         r_waiting st = true <-> r_fut st = FPend, same for the start-up wait           *)
+   quiet st           := the state between two events: no resolved-but-unconsumed future (r_fut st and
+                         s_fut st are FNone or FPend), and for each of the two waits "a caller is
+                         suspended", "the future is pending" and "the attribute is set" coincide:
+                         r_waiting st = true <-> r_fut st = FPend,  r_attr st = true <-> r_fut st = FPend,
+                         s_waiting st = true <-> s_fut st = FPend,  s_attr st = true <-> s_fut st = FPend.
+                         It holds in every reachable state (c11_quiet_reachable).                      *)
 
 (* the reset request writes CANCEL followed by the RST frame C0 38 BC and the flag *)
 Theorem c11_rst_bytes : write_frame [CANCEL] Rst = [0x1A; 0xC0; 0x38; 0xBC; 0x7E].
@@ -34,7 +38,9 @@ Theorem c11_quiet_reachable : forall es, quiet (gfinal es).
 Proof. exact quiet_reachable. Qed.
 
 (* and it does complete: RSTACK(software) alone, while pending, ends the request normally *)
-Theorem c11_completes : forall st, request_pending st -> r_joined st = 0 -> s_fut st <> FOk -> s_fut st <> FExn -> s_fut st <> FCancelled ->
+(* (the side conditions first written here -- no joined callers, start-up future unresolved -- are
+   not needed) *)
+Theorem c11_completes : forall st, request_pending st ->
   In (GResetDone ROk) (snd (gstep st (GBatch [UReset RESET_SOFTWARE]))) /\
   r_attr (fst (gstep st (GBatch [UReset RESET_SOFTWARE]))) = false.
 Proof. exact completes_on_software_rstack. Qed.
@@ -59,13 +65,36 @@ Theorem c11_unsolicited_ignored : forall st,
   handle_up st (UReset RESET_SOFTWARE) = (st, []).
 Proof. exact unsolicited_ignored. Qed.
 
-(* connection loss (or EOF) releases every pending reset / start-up waiter with the error *)
+(* connection loss (or EOF) releases every pending reset / start-up waiter with the error -- whatever
+   its position in the batch, also after a failure code that already closed the gateway, also when it
+   is the connection_lost(None) of a deliberate close -- and leaves both attributes cleared.
+   Correction: as first written the last conjunct was  s_attr (...) = false  for every st.  That is
+   false of the (unreachable) state whose start-up attribute is set although there is no future:
+     st = g_init with s_attr := true (s_fut = FNone), l = [ULost true]:
+     connection_lost only touches a pending start-up future and the attribute is cleared by the
+     waiter's finally block, so s_attr stays true (checked below).
+   The conjunct now carries exactly the condition it needs; every quiet -- hence every reachable --
+   state satisfies it (s_attr st = true -> s_fut st = FPend). *)
 Theorem c11_loss_releases : forall st l u, (u = UEof \/ exists b, u = ULost b) -> In u l ->
   ~ In (UReset RESET_SOFTWARE) l ->
   (request_pending st -> In (GResetDone RExn) (snd (gstep st (GBatch l)))) /\
   (startup_pending st -> In (GStartupDone false) (snd (gstep st (GBatch l)))) /\
-  r_attr (fst (gstep st (GBatch l))) = false /\ s_attr (fst (gstep st (GBatch l))) = false.
+  r_attr (fst (gstep st (GBatch l))) = false /\
+  ((s_attr st = true -> s_fut st <> FNone) -> s_attr (fst (gstep st (GBatch l))) = false).
 Proof. exact loss_releases. Qed.
+
+Example c11_loss_releases_counterexample :
+  s_attr (fst (gstep (upd_s g_init true FNone false) (GBatch [ULost true]))) = true.
+Proof. reflexivity. Qed.
+
+Corollary c11_loss_clears_attributes : forall es l u, (u = UEof \/ exists b, u = ULost b) -> In u l ->
+  ~ In (UReset RESET_SOFTWARE) l ->
+  r_attr (fst (gstep (gfinal es) (GBatch l))) = false /\ s_attr (fst (gstep (gfinal es) (GBatch l))) = false.
+Proof.
+  intros es l u Hu Hin Hn. destruct (c11_loss_releases (gfinal es) l u Hu Hin Hn) as (_ & _ & Hr & Hs).
+  split; [exact Hr|]. apply Hs. intros Ha E.
+  destruct (c11_quiet_reachable es) as (_ & _ & _ & _ & _ & Hq). apply Hq in Ha. rewrite E in Ha. discriminate Ha.
+Qed.
 
 (* nothing stays pending after a loss, even when the RSTACK came first in the same iteration *)
 Theorem c11_loss_leaves_nothing_pending : forall st l u, (u = UEof \/ exists b, u = ULost b) -> In u l ->
@@ -81,7 +110,15 @@ Proof. exact numbers_zero. Qed.
 Theorem c11_constants : RESET_SOFTWARE = 0x0B /\ RESET_TIMEOUT = 5.
 Proof. split; reflexivity. Qed.
 
+(* (the expected value first written for the last step was [2; 3], "transport closed"; without a
+   registered application callback nothing closes the transport, so the next request writes RST again;
+   with the callback registered the failure closes it and the next request is refused) *)
 Example c11_example :
   map (flat_map enc_gout) (snd (grun g_init [GReq; GBatch [UReset 2]; GBatch [UReset 11; ULost true]; GReq]))
-  = [[1]; [4]; [4; 2; 0]; [2; 3]]%Z.
+  = [[1]; [4]; [4; 2; 0]; [1]]%Z.
+Proof. vm_compute. reflexivity. Qed.
+
+Example c11_example_with_callback :
+  map (flat_map enc_gout) (snd (grun g_init [GAddCallback; GReq; GBatch [UReset 11; ULost true]; GReq]))
+  = [[]; [1]; [4; 6; 5; 2; 0]; [2; 3]]%Z.
 Proof. vm_compute. reflexivity. Qed.
